@@ -846,7 +846,12 @@ pub fn generate(seed: u64, k_seeds: usize) -> Sc {
     let e2e_verbose = e2e && r.chance(1, 2);
     // (its own stream: the rest of the input is what it was before this knob existed)
     let mut rf = Rng::new(crate::prng::mix(seed, 0xF011, 9));
-    let out_disk_full_after = if fx.is_none() && rf.chance(1, 10) { Some(*rf.pick(&[0u64, 90, 600, 2500, 9000])) } else { None };
+    // Tried and withdrawn (DESIGN 10): C09 quantifies over inputs x hash seeds in a world without
+    // faults; what a FAILED run leaves behind is not covered by it, and a legitimate multi-threaded
+    // writer leaves different partial files from run to run under a full disk. The knob stays for
+    // experiments through a replay file; it is never generated.
+    let _ = &mut rf;
+    let out_disk_full_after: Option<u64> = None;
     Sc { files, modes: ALL_MODES.to_vec(), symbol_base, summarize_before: sum_day.to_string(), today: d(start_year + 4, 6, 15).to_string(), hash_seeds, max_read, fx, e2e, e2e_affiliate_spellings, e2e_verbose, out_disk_full_after }
 }
 
@@ -1832,7 +1837,6 @@ impl Engine for C09 {
             "probe.e2e_real_process_output_equals_simulated_process_output",
             "probe.e2e_affiliate_spelled_differently_from_row_to_row",
             "probe.e2e_verbose_runs",
-            "fault.output_disk_full_in_every_process_of_the_input",
             "probe.fx_every_process_starts_from_a_hand_edited_cache",
             "probe.fx_first_run_downloaded",
             "probe.fx_second_run_served_from_cache",
